@@ -639,6 +639,7 @@ def r08e(ctx):
         return NotImplemented       # ... and the library's own order_substitutions is evaluated
     w = World(ctx, what="substitute", hooks={"S": S, "order_substitutions": spy_order})
     n_eval = 0
+    setup_ok = True
     for meth in ("substitute_contracted", "substitute_with_generic"):
         fn = ctx.model.fn(f"expr_container:Term.{meth}")
         for names, spins, mult, prov in TERMS:
@@ -646,6 +647,7 @@ def r08e(ctx):
             label = f"{meth} on {names}{'/' + spins if spins else ''} counts {mult} target {prov}"
             if recs is None:
                 ctx.bad(rule, fn, f"{label}: the registry does not deliver the requested index records (see R08d)", key=f"{label} setup")
+                setup_ok = False
                 continue
             counter = list(zip(recs, mult))
             provided = tuple(recs[k] for k in prov) if prov is not None else None
@@ -745,7 +747,8 @@ def r08e(ctx):
                           f"{case}: applying {[(w.describe(a), w.describe(b)) for a, b in ordered]} one after another maps "
                           f"{[w.describe(s) for s in universe]} to {[w.describe(g) for g in got]}, the simultaneous map gives "
                           f"{[w.describe(e) for e in exp]}", key=f"{case} sequential")
-    ctx.floor(rule, "evaluations of the substitute methods", n_eval, 60)
+    if setup_ok:
+        ctx.floor(rule, "evaluations of the substitute methods", n_eval, 60)
     # Term.contracted / Term.target: complementary parts of the index counter
     ct = ctx.model.fn("expr_container:Term.contracted")
     tg = ctx.model.fn("expr_container:Term.target")
